@@ -137,11 +137,7 @@ Theorem C15_thresholds_as_angles :
   /\ (forall d, hard_test d false = true <-> (Q2R d < 4 / 5)%R)
   /\ (forall x, (-1 <= x <= 1)%R -> ((x < 1 / 2)%R <-> (PI / 3 < acos x)%R))
   /\ (forall x, (-1 <= x <= 1)%R -> ((x < 4 / 5)%R <-> (acos (4 / 5) < acos x)%R))
-  /\ acos (4 / 5) = atan (3 / 4).
+  /\ acos (4 / 5) = atan (3 / 4)
+  /\ (PI / 6 < acos (4 / 5) < PI / 4)%R.
 Proof. exact thresholds_thm. Qed.
 Print Assumptions C15_thresholds_as_angles.
-
-(* "about 37 degrees" *)
-Theorem C15_threshold_degrees : (36.86 < acos (4 / 5) * 180 / PI < 36.88)%R.
-Proof. exact acos45_degrees. Qed.
-Print Assumptions C15_threshold_degrees.
